@@ -199,7 +199,8 @@ func vpC10Run(t vpRecipTarget, addrs []vpAddr, slots []int) {
 		}
 		for i, w := range wantLists[s] {
 			if w.isNil {
-				vpAssert("lists/nil-kept", l[i] == nil)
+				// entries that identify nobody (nil, a link without an id) stay where and what they were
+				vpAssert("lists/nil-kept", l[i] == w.item)
 			} else {
 				vpAssert("lists/first-mention-kept", l[i] == w.item)
 			}
@@ -242,7 +243,14 @@ func vpH_C10_types() {
 
 func vpH_C10_nil_entries() {
 	t := vpC10Target(vpChoice(2))
-	addrs := []vpAddr{vpAddressee(0), {isNil: true}, vpAddressee(2), {isNil: true}, vpAddressee(1)}
+	// the second anonymous entry is nil or an embedded link that has no id (only a target): neither names
+	// an addressee, both are left alone - and two such links are not "the same addressee"
+	var anon1, anon2 Item
+	if vpBool() {
+		anon1 = &Link{Type: MentionType, Href: "https://h.ex/l1"}
+		anon2 = &Link{Type: MentionType, Href: "https://h.ex/l2"}
+	}
+	addrs := []vpAddr{vpAddressee(0), {isNil: true, item: anon1}, vpAddressee(2), {isNil: true, item: anon2}, vpAddressee(1)}
 	vpC10Run(t, addrs, []int{0, 0, vpChoice(2), 1, vpChoice(4)})
 }
 
